@@ -28,7 +28,8 @@ Findings of this check (the first three are repaired in /repo since; the fourth 
   * C07.no_response.cookie_line_unencodable (F7): cookie APIs accept text that cannot be sent; hang.
   * C07.set_header_name_not_token: set_header does not validate names (NUL / ':' on the wire, late failure).
   * C07.nul_on_wire.lowlevel: write_headers' last-line guard lets NUL through.
-  * C07.name_case_folded_to_ascii.lowlevel (open): HTTPHeaders()["\u017fet-Cookie"] = v is written as "Set-Cookie: v".
+  * C07.name_case_folded_to_ascii.lowlevel (repaired 85ce3b7): HTTPHeaders()["\u017fet-Cookie"] = v was written as "Set-Cookie: v".
+  * C07.rejected_redirect_leaves_status (open): a refused redirect() leaves "302 Found" on the following response.
 With the three proposed patches applied to a scratch copy the check is quiet without any exclusion.
 
 Sensitivity (scratch copies, quick tier, seed 1):
@@ -53,6 +54,15 @@ Sensitivity (scratch copies, quick tier, seed 1):
     through set_header / add_header / set_cookie / set_signed_cookie / clear_cookie names and the low layer.
     The stricter rule exposed the same folding on the low layer of the real tree (open finding
     C07.name_case_folded_to_ascii.lowlevel, findings_inbox/C07-header-name-unicode-case-fold.md).
+  * web.py set_header calls clear_header(name) before _convert_header_value validates the value: a REJECTED set_header
+    (caught by the application) deletes the line(s) an earlier accepted set_header / add_header had produced -> caught at
+    seeds 1,2,3 (rejected_call_changed_state; parts "prog" and "prog_random").  Missed before: every case made exactly
+    one API call.  New: header *programs* - op lists over set_header / add_header / clear_header / set_status / redirect
+    run by one handler with try/except around every call, then a normal finish (GET, HEAD, streaming) - against a
+    reference model in which an accepted call has exactly its documented effect and a rejected call none; 744
+    deterministic programs "accepted call(s), rejected call on the same name" + 600 random ones.
+    The model exposed one real partial effect on the current tree: a rejected redirect() leaves its 302 status behind
+    (open finding C07.rejected_redirect_leaves_status, findings_inbox/C07-rejected-redirect-leaves-status.md).
 Not implemented from DESIGN: `expires` as an injection position (the documented types float/tuple/datetime
 carry no text); header values as int/datetime (no payload can be carried).
 """
@@ -673,10 +683,206 @@ def sweep_cases(thorough):
                 yield (api, "GET200", b"ab" + bytes([cp]) + b"Injected: 1")
 
 
-PARTS = {"main": run_case, "sweep": run_case}
+# =========================================================================== header programs
+# A *program* of header calls made by one handler, every call wrapped in try/except (the application catches a
+# rejection and goes on), then a normal finish.  Reference model: an accepted call has exactly its documented
+# effect, a REJECTED call has none - in particular it must not destroy what earlier accepted calls had set.
+#   ("set", name, value) set_header      ("add", name, value) add_header      ("clear", name) clear_header
+#   ("status", reason)   set_status(200, reason)                ("redirect", url)    redirect(url)
+PROG = {}
+
+
+class ProgHandler(tornado.web.RequestHandler):
+    def get(self):
+        c = PROG
+        for op in c["ops"]:
+            try:
+                if op[0] == "set":
+                    self.set_header(op[1], op[2])
+                elif op[0] == "add":
+                    self.add_header(op[1], op[2])
+                elif op[0] == "clear":
+                    self.clear_header(op[1])
+                elif op[0] == "status":
+                    self.set_status(200, op[1])
+                elif op[0] == "redirect":
+                    self.redirect(op[1])
+                else:
+                    raise AssertionError(op)
+                c["raised"].append(None)
+            except Exception as e:
+                c["raised"].append(e)
+            if self._finished:
+                return
+        if c["shape"] == "STREAM200":
+            self.write(b"BO")
+            self.flush()
+            self.write(b"DY")
+        else:
+            self.write(b"BODY")
+
+    head = get
+
+
+PROG_APP = tornado.web.Application([(r"/.*", ProgHandler)])
+
+
+def _wire_value(v):
+    raw = v if isinstance(v, bytes) else v.encode("latin-1")
+    return raw.strip(b" \t")
+
+
+def evaluate_prog(shape, ops):
+    labels = {"prog", "shape:" + shape}
+    PROG.clear()
+    PROG.update(ops=ops, shape=shape, raised=[])
+    method = "HEAD" if shape == "HEAD200" else "GET"
+    o = wu.run_request(PROG_APP, wu.request_bytes(method, "/"), method)
+    raised = list(PROG["raised"])
+    detail = {"shape": shape, "ops": ops, "raised": [repr(r) for r in raised], "outcome": o.kind, "wire": o.wire[:700]}
+
+    def problem(clause, extra=None, sig=None):
+        d = dict(detail)
+        if extra:
+            d.update(extra)
+        return labels, (clause, d, sig or clause)
+
+    if o.kind == "malformed" and o.error.kind in ("bare_cr_lf", "nul"):
+        return problem("C07.cr_lf_nul_in_header_block", {"error": str(o.error)})
+    if o.kind != "response":
+        return problem("C07.prog_no_wellformed_response", {"error": str(o.error) if o.error else None})
+    if o.strict is None:
+        return problem("C07.strict_reader_disagrees", {"strict_error": o.strict_error})
+    r = o.resp
+    got = header_list(r)
+    if got is None:
+        return problem("C07.date_header_format")
+
+    # ---- reference model
+    redirected = None
+    reason = None
+    edits = []                 # accepted header edits, in order
+    rejected_names = set()     # names a rejected call was about
+    unspecified = set()        # names whose state the documentation leaves open
+    rejected_redirect = False
+    counts = {}
+    for op, rz in zip(ops, raised):
+        kind = op[0]
+        lname = ascii_lower(op[1]).encode("latin-1", "replace") if kind in ("set", "add", "clear") else None
+        if rz is not None:
+            labels.add("rejected:" + kind)
+            if lname is not None:
+                rejected_names.add(lname)
+                if counts.get(lname):
+                    labels.add("rejected_after_accepted_same_name")
+            if kind == "redirect":
+                rejected_redirect = True
+            continue
+        labels.add("accepted:" + kind)
+        if kind == "set":
+            edits.append(("set", lname, _wire_value(op[2])))
+            counts[lname] = 1
+        elif kind == "add":
+            edits.append(("add", lname, _wire_value(op[2])))
+            counts[lname] = counts.get(lname, 0) + 1
+        elif kind == "clear":
+            if counts.get(lname, 0) >= 2:
+                unspecified.add(lname)   # clear_header "does not apply to multi-valued headers set by add_header"
+            edits.append(("clear", lname, None))
+            counts[lname] = 0
+        elif kind == "status":
+            reason = op[1]
+        elif kind == "redirect":
+            redirected = op[1]
+            break
+    code, base_reason, base, body = baseline("redirect" if redirected is not None else "plain", shape)
+    want = list(base)
+    for kind, lname, value in edits:
+        if kind in ("set", "clear"):
+            want = [hv for hv in want if hv[0] != lname]
+        if kind in ("set", "add"):
+            want.append((lname, value))
+    if redirected is not None:
+        want = [hv for hv in want if hv[0] != b"location"] + [(b"location", redirected.encode("utf-8").strip(b" \t"))]
+    # ---- status line
+    want_reasons = {base_reason}
+    if redirected is None and reason is not None:
+        want_reasons = reason_bytes(reason) if valid_reason(reason) else {b"Unknown"}
+    if r.code != code or r.reason not in want_reasons:
+        sig = "C07.rejected_redirect_leaves_status" if (rejected_redirect and redirected is None and r.code in (301, 302)) else None
+        return problem("C07.prog_status_line", {"got": (r.code, r.reason), "want": (code, sorted(want_reasons))}, sig)
+    # ---- header lines
+    drop = lambda hl: sorted(hv for hv in hl if hv[0] not in unspecified)
+    g, w = drop(got), drop(want)
+    if g != w:
+        missing = [hv for hv in w if hv not in g]
+        extra = [hv for hv in g if hv not in w]
+        names = {hv[0] for hv in missing + extra}
+        clause = "C07.rejected_call_changed_state" if names & rejected_names else "C07.prog_header_lines"
+        return problem(clause, {"missing": missing, "extra": extra})
+    if r.body != body:
+        return problem("C07.body_changed", {"body": r.body[:200]})
+    return labels, None
+
+
+def run_prog(ctx, case):
+    _, shape, ops = case
+    ops = [tuple(op) for op in ops]
+    labels, prob = evaluate_prog(shape, ops)
+    ctx.note(case, labels, "rejected_after_accepted_same_name" in labels or len(ops) >= 2)
+    if prob:
+        clause, detail, sig = prob
+        ctx.fail(clause, detail, sig=sig)
+
+
+PROG_NAMES = ["X-A", "x-a", "X-Frame-Options", "Content-Type", "Cache-Control", "Server", "Set-Cookie"]
+GOOD_VALUES = ["v1", "text/plain", "DENY", "a, b", "no-store", "x=1; Path=/"]
+BAD_VALUES = ["x\r\nInjected: 1", "x\nInjected: 1", "x\0y", "\u2603", "a\x7fb", "x\x0by", b"y\r\nInjected: 1", b"\x00", "\u010a"]
+GOOD_REASONS = ["OK", "Fine by me"]
+BAD_REASONS = ["x\r\nInjected: 1", "a\0b", "\u2603", ""]
+
+
+def prog_cases():
+    """Accepted call(s), then a rejected call about the same name caught by the handler, then finish."""
+    for shape in ("GET200", "HEAD200", "STREAM200"):
+        for name in PROG_NAMES:
+            other = "x-a" if name != "x-a" else "X-A"
+            for bad in BAD_VALUES:
+                for first in ([("set", name, "v1")], [("add", name, "v1"), ("add", name, "a, b")],
+                              [("set", name, "DENY"), ("add", other, "keep")]):
+                    yield ("prog", shape, first + [("set", name, bad)])
+                    yield ("prog", shape, first + [("add", name, bad)])
+                if shape == "GET200":
+                    yield ("prog", shape, [("set", name, bad), ("set", name, "v1")])
+                    yield ("prog", shape, [("set", name, "v1"), ("set", name, bad), ("clear", name)])
+        for bad in BAD_VALUES:
+            url = bad if isinstance(bad, str) else bad.decode("latin-1")
+            yield ("prog", shape, [("set", "X-A", "v1"), ("redirect", "/x" + url)])
+            yield ("prog", shape, [("set", "X-A", "v1"), ("status", "Fine by me"), ("redirect", "/x" + url), ("add", "X-A", "v2")])
+        yield ("prog", shape, [("set", "X-A", "v1"), ("redirect", "/ok"), ("set", "X-A", "late")])
+        for bad in BAD_REASONS:
+            yield ("prog", shape, [("status", "Fine by me"), ("status", bad)])
+            yield ("prog", shape, [("status", bad), ("status", "OK"), ("set", "X-A", "v1")])
+
+
+_prog_value = st.one_of(st.sampled_from(GOOD_VALUES), st.sampled_from(GOOD_VALUES), st.sampled_from(BAD_VALUES))
+_prog_op = st.one_of(
+    st.tuples(st.just("set"), st.sampled_from(PROG_NAMES), _prog_value),
+    st.tuples(st.just("set"), st.sampled_from(PROG_NAMES), _prog_value),
+    st.tuples(st.just("add"), st.sampled_from(PROG_NAMES), _prog_value),
+    st.tuples(st.just("clear"), st.sampled_from(PROG_NAMES)),
+    st.tuples(st.just("status"), st.sampled_from(GOOD_REASONS + BAD_REASONS)),
+    st.tuples(st.just("redirect"), st.sampled_from(["/ok", "/a?b=c", "/x\r\nInjected: 1", "/\u2603", "/x\0"])),
+)
+prog_s = st.tuples(st.just("prog"), st.sampled_from(["GET200", "GET200", "HEAD200", "STREAM200"]),
+                   st.lists(_prog_op, min_size=2, max_size=5))
+
+PARTS = {"main": run_case, "sweep": run_case, "prog": run_prog, "prog_random": run_prog}
 
 
 def main(ctx):
     ctx.run_replays(PARTS)
     ctx.explore(case_s, run_case, ctx.n(1500, 50000), name="main")
     ctx.enumerate(sweep_cases(ctx.thorough), run_case, name="sweep")
+    ctx.enumerate(prog_cases(), run_prog, name="prog")
+    ctx.explore(prog_s, run_prog, ctx.n(600, 20000), name="prog_random")
